@@ -1,4 +1,9 @@
-"""C20 - the built-in CORS policy grants exactly the configured origins."""
+"""C20 - the built-in CORS policy grants exactly the configured origins.
+
+Per-call time limits are 30 s: the code under test has no loops, the limit only keeps the harness from blocking.
+(A 3 s limit fired spuriously on a machine with load average > 100, and SIGALRM raised inside falcon's generic
+exception handler turned into a 500 response.)
+"""
 PROP = 'C20'
 LEAN_MODULES = ['FalconModel.Cors', 'FalconModel.CorsProofs']
 DRIVERS = ['crdriver']
@@ -424,7 +429,7 @@ def _apps(ctx, asgi):
         if not asgi:
             env = ft.create_environ(method=method, path=path, headers=hdrs)
             st = []
-            with alarm(3):
+            with alarm(30):
                 it = app(env, lambda s, h, e=None: st.append((s, h)))
                 try:
                     body = b''.join(it)
@@ -450,7 +455,7 @@ def _apps(ctx, asgi):
             async def send(e):
                 sent.append(e)
             await app(scope, receive, send)
-        loop.run_until_complete(asyncio.wait_for(go(), 3))
+        loop.run_until_complete(asyncio.wait_for(go(), 30))
         start = next(e for e in sent if e['type'] == 'http.response.start')
         hd = {}
         for k, v in start['headers']:
